@@ -385,7 +385,8 @@ def r5(ctx):
                     seen_vals.add(k[0])
                     map_ok &= lf.ret == some(unit_variant(en_adt, variants.get(k[0], "?")))
                 else:
-                    map_ok &= lf.ret[0] == "panic"
+                    # an inner value outside 0..N (never produced by the range 0..N): must not be turned into a variant
+                    map_ok &= lf.ret[0] == "panic" or lf.ret == OPT_NONE
             ctx.ob(f"{it}::{m}", fwd_ok and map_ok and seen_vals == set(range(n)),
                    f"{it}::{m}: forwards to Range::{m} on self.range: {fwd_ok}; maps k to variant k and None to None: {map_ok}; values covered {sorted(seen_vals)}",
                    site=P.body(key).get("def_span"), sample={"forwards_to": f"Range<u8>::{m}", "values": sorted(seen_vals)})
